@@ -35,7 +35,12 @@ impl AsyncRead for ScriptReader {
         self.just_pended = false;
         let remaining = self.data.len() - self.pos;
         if remaining == 0 {
-            return if self.end_err { Poll::Ready(Err(Error::new(ErrorKind::Other, "scripted read error"))) } else { Poll::Ready(Ok(0)) };
+            // the kind of the scripted error varies with the stream length (never Interrupted/WouldBlock,
+            // which callers legitimately retry)
+            const KINDS: [ErrorKind; 7] = [ErrorKind::Other, ErrorKind::UnexpectedEof, ErrorKind::BrokenPipe, ErrorKind::ConnectionReset,
+                ErrorKind::InvalidData, ErrorKind::TimedOut, ErrorKind::NotFound];
+            let kind = KINDS[self.data.len() % KINDS.len()];
+            return if self.end_err { Poll::Ready(Err(Error::new(kind, "scripted read error"))) } else { Poll::Ready(Ok(0)) };
         }
         let offered = if self.sizes.is_empty() { remaining } else { let s = self.sizes[self.idx % self.sizes.len()]; self.idx += 1; s.max(1) };
         let n = offered.min(remaining).min(buf.len());
